@@ -5,10 +5,11 @@
    and compare every continuation with the uninterrupted run; snapshot is valid JSON; later execution does not
    change it; re-snapshot reproduces it; corrupt streams are rejected with a library error (harness/props/c12.py).
    C12_restored_continues_alike lifts the state-level theorems to EVERY continuation (sync engine; machines without
-   transitions into the root or into history states).  PARTIAL: history-targeting transitions and the async engine's
+   transitions into the root or into history states); C12_restored_continues_alike_h allows transitions into history
+   states (what they restore comes from the snapshot's history section).  PARTIAL: the async engine's
    continuations are covered by the correspondence only; child actors and systemId registrations are outside Snap.v
    (see C15); JSON validity, isolation and corrupt-stream rejection are runtime monitors. *)
-From XSM Require Import Model.Macro Model.Snap Proofs.SortP Proofs.OrderP Proofs.HistP Proofs.SnapP Proofs.LegalP Proofs.DescentP Proofs.InvariantP Proofs.PermP Proofs.SelectP.
+From XSM Require Import Model.Macro Model.Snap Proofs.SortP Proofs.OrderP Proofs.HistP Proofs.SnapP Proofs.LegalP Proofs.DescentP Proofs.InvariantP Proofs.PermP Proofs.SelectP Proofs.HistoryP Proofs.InvariantHP Proofs.PermHP.
 From Coq Require Import Permutation.
 
 (* a snapshot can always be restored on the machine that produced it *)
@@ -34,7 +35,7 @@ Theorem C12_restored_behaves_alike : forall m, ids_distinct m -> forall s,
   Forall (fun e => snd e <> []) (s_hist s) ->
   forall r cx ev d tgt p, restore m (persist m s) = Some r ->
   select m (s_cfg r) cx ev = select m (s_cfg s) cx ev
-  /\ sort_by (lt_depth_id m) (exit_set m (s_cfg r) d tgt) = sort_by (lt_depth_id m) (exit_set m (s_cfg s) d tgt)
+  /\ sort_by (lt_depth_id m) (exit_set_h m (s_cfg r) (s_hist r) d tgt) = sort_by (lt_depth_id m) (exit_set_h m (s_cfg s) (s_hist s) d tgt)
   /\ remembered m (s_cfg r) p = remembered m (s_cfg s) p
   /\ sort_nat (s_cfg r) = sort_nat (s_cfg s).
 Proof. exact restored_behaves_alike. Qed.
@@ -48,8 +49,14 @@ Print Assumptions C12_restored_behaves_alike.
 Theorem C12_restored_continues_alike : forall m, wf m = true -> twf m = true -> good_initials m = true -> safe_targets m -> ids_distinct m ->
   forall s r evs, Legal m (s_cfg s) -> Forall (fun e => snd e <> []) (s_hist s) -> restore m (persist m s) = Some r ->
   eqv m (fold_left (fun s ev => catch (sync_send m ev) s) evs r) (fold_left (fun s ev => catch (sync_send m ev) s) evs (quiet s)).
-Proof. exact restored_continues_alike. Qed.
+Proof. exact PermP.restored_continues_alike. Qed.
 Print Assumptions C12_restored_continues_alike.
+
+Theorem C12_restored_continues_alike_h : forall m, wf m = true -> twf m = true -> good_initials m = true -> safe_targets_h m -> ids_distinct m ->
+  forall s r evs, Legal m (s_cfg s) -> HistOK m (s_hist s) -> Forall (fun e => snd e <> []) (s_hist s) -> restore m (persist m s) = Some r ->
+  eqv m (fold_left (fun s ev => catch (sync_send m ev) s) evs r) (fold_left (fun s ev => catch (sync_send m ev) s) evs (quiet s)).
+Proof. exact PermHP.restored_continues_alike. Qed.
+Print Assumptions C12_restored_continues_alike_h.
 
 (* re-snapshotting a restored interpreter reproduces the snapshot *)
 Theorem C12_resnapshot : forall m, ids_distinct m -> forall s,
